@@ -119,6 +119,9 @@ FAULTS = [
     ('cgsmiles.sample:MoleculeSampler.__init__', 'cgsmiles/sample.py',
      "        if fragment_masses:\n            guess_mass_from_PTE = False", "        if fragment_masses is not None:\n            guess_mass_from_PTE = False",
      'an empty mass table is accepted (no masses at all)'),
+    ('cgsmiles.sample:MoleculeSampler.__init__', 'cgsmiles/sample.py',
+     "        self.all_atom = all_atom\n", "        if fragment_masses:\n            all_atom = False\n        self.all_atom = all_atom\n",
+     'the resolution flag is re-bound before it is stored (a parameter in a postcondition is the argument, not the local)'),
     ('cgsmiles.graph_utils:annotate_fragments', 'cgsmiles/graph_utils.py',
      "        combinations = itertools.combinations(fragid_to_node[meta_node], r=2)", "        combinations = itertools.combinations(fragid_to_node[meta_node][1:], r=2)",
      'bonds of the first atom of a fragment are missing in its fragment graph'),
